@@ -3,6 +3,7 @@ CONSTANTS
   Programs <- Programs3x1
   ShardOf <- OwnShards
   InsertOverwrites = FALSE
+  MapSkipsHeldShard = FALSE
 SPECIFICATION FairSpec
 INVARIANTS NoMonitorFired CloneOK NoDeadlock
 PROPERTIES WriteOnce Termination
